@@ -13,6 +13,7 @@ import LibfiberVerif.Model.Lifo
 import LibfiberVerif.Model.DistFifo
 import LibfiberVerif.Model.Stack
 import LibfiberVerif.Model.Sched
+import LibfiberVerif.Model.SchedN
 import LibfiberVerif.Model.Mutex
 import LibfiberVerif.Model.Cond
 import LibfiberVerif.Model.Join
@@ -41,7 +42,7 @@ def registry : List (String × (List String → IO UInt32)) := [
   ("Lifo", Lifo.drive),
   ("DistFifo", DistFifo.drive),
   ("Stack", Stack.drive),
-  ("Sched", Sched.drive),
+  ("Sched", Sched.drive), ("SchedN", SchedN.drive),
   ("Mutex", Mutex.drive), ("Cond", Cond.drive),
   ("Join", Join.drive), ("JoinCas", JoinCas.drive),
   ("Rt", Rt.drive),
